@@ -837,6 +837,62 @@ def mv_structured_cases():
                     yield dict(kind="mv", mode=mode, comps=comps, item=A_, same=None, tag=f"structured:{fl}:{''.join(pat) or '-'}")
 
 
+def share_cases():
+    """In every run: two datasets that SHARE an object — the values object on different grids (built on the same
+    `DenseValues` / `IrregularValues`, or assigned through the `values` setter), or the argvals object with different
+    values — compared with `==` in both orders and looked up with `in` / `index` / `remove` / `count`."""
+    g1, g2 = [[0, 1, 2]], [[0, 2, 4]]
+    dense = (D(g1, [[1, 2, 3], [4, 5, 6]]), D(g2, [[1, 2, 3], [4, 5, 6]]), D(g1, [[1, 2, 3], [4, 5, 7]]))
+    dense2 = (D([[0, 1], [0, 1, 2]], [[1, 2, 3, 4, 5, 6]]), D([[0, 1], [0, 1, 3]], [[1, 2, 3, 4, 5, 6]]), D([[0, 1], [0, 1, 2]], [[1, 2, 3, 4, 5, 9]]))
+    irr = (I([(0, [[0, 1]], [1, 2]), (1, [[0, 1, 2]], [3, 4, 5])]), I([(0, [[0, 2]], [1, 2]), (1, [[0, 1, 2]], [3, 4, 5])]),
+           I([(0, [[0, 1]], [1, 2]), (1, [[0, 1, 2]], [3, 4, 6])]))
+    for name, (a, other_grid, other_vals) in (("dense", dense), ("dense2d", dense2), ("irregular", irr)):
+        for via in ("ctor", "setter"):
+            for mode in ("eq", "in", "index", "remove", "count"):
+                yield dict(kind="share", a=a, b=other_grid, share="values", via=via, mode=mode, tag=name)
+                yield dict(kind="share", a=a, b=other_vals, share="argvals", via=via, mode=mode, tag=name)
+
+
+def run_share(case):
+    A, V, FD = _fd()
+    a = build(case["a"])
+    proto = build(case["b"])           # what b must be equal to, built from scratch
+    cls = type(a)
+    if case["share"] == "values":
+        if case["via"] == "ctor":
+            b = cls(proto.argvals, a.values)
+        else:
+            b = proto
+            b.values = a.values
+        shared = b.values is a.values
+    else:
+        if case["via"] == "ctor":
+            b = cls(a.argvals, proto.values)
+        else:
+            b = proto
+            b.argvals = a.argvals
+        shared = b.argvals is a.argvals
+    out = dict(shared=bool(shared), plain=plain_eq(a, b), consistent=read_obj(b) == read_obj(build(case["b"])))
+    try:
+        if case["mode"] == "eq":
+            r1, r2 = a == b, b == a
+            out.update(res=[bool(r1), bool(r2)], rtype=type(r1).__name__)
+        else:
+            m = FD.MultivariateFunctionalData([b, a])
+            if case["mode"] == "in":
+                out.update(res=bool(a in m))
+            elif case["mode"] == "index":
+                out.update(res=int(m.index(a)))
+            elif case["mode"] == "count":
+                out.update(res=int(m.count(a)))
+            else:
+                m.remove(a)
+                out.update(res=[0 if c is b else 1 for c in m.data])      # which of [b, a] is left
+    except Exception as e:  # noqa: BLE001
+        out.update(err=_ecls(e), msg=str(e)[:120])
+    return out
+
+
 def mvop_cases(rng: Rng, n):
     """The operators a multivariate object inherits from `UserList`: `+` (concatenation through the
     constructor), `*` (repetition), `==` (list equality) — not arithmetic."""
@@ -1090,6 +1146,7 @@ def gen_cases(rng: Rng, tier):
     k = dict(quick=1, thorough=12)[tier]
     yield from FIXED
     yield from mv_structured_cases()
+    yield from share_cases()
     yield from bin_cases(rng, 130 * k)
     yield from derived_cases(rng, 45 * k)
     yield from decimal_cases(rng, 30 * k)
@@ -1358,6 +1415,8 @@ def run_impl(case):
         return run_mvop(case)
     if case["kind"] == "eqnf":
         return run_eqnf(case)
+    if case["kind"] == "share":
+        return run_share(case)
     return {"bin": run_bin, "sc": run_sc, "ident": run_ident, "eq": run_eq, "mv": run_mv}[case["kind"]](case)
 
 
@@ -1386,6 +1445,12 @@ def model_lines(case, impl):
         if case["b"]["k"] == "X" or case["a"]["k"] == "X":
             return []
         return [" ".join(["eq"] + tok(case["a"]) + tok(case["b"]))]
+    if k == "share":
+        # sharing an object is invisible to the model: plain `==` / list semantics on [b, a] with item a
+        if case["mode"] == "eq":
+            return [" ".join(["eq"] + tok(case["a"]) + tok(case["b"]))]
+        req = {"in": "in", "index": "idx", "count": "cnt", "remove": "rem"}[case["mode"]]
+        return [" ".join([req, "2"] + tok(case["b"]) + tok(case["a"]) + tok(case["a"]))]
     if k == "eqnf":
         # same grid, same shapes by construction: the verdict is the closeness of the two value arrays
         return ["xclose " + _flat_tokens(case["a"]) + " " + _flat_tokens(case["b"])]
@@ -1411,7 +1476,7 @@ def model_lines(case, impl):
 
 
 def parse_model(case, outs):
-    if case["kind"] in ("mvop", "eqnf") or (case["kind"] == "mv" and case.get("mode") in ("count", "index")):
+    if case["kind"] in ("mvop", "eqnf", "share") or (case["kind"] == "mv" and case.get("mode") in ("count", "index")):
         return dict(raw=outs[0])
     return parse_answer(outs[0])
 
@@ -1466,6 +1531,20 @@ def cmp_data(ri, rm, where="result"):
 def compare(case, impl, model):
     if "__crash__" in impl:
         return [f"implementation harness crashed: {impl['__crash__']} {impl.get('msg')} {impl.get('tb', '')[-300:]}"]
+    if case["kind"] == "share":
+        raw = model["raw"]
+        if "err" in impl:
+            return [f"shared {case['share']} ({case['via']}): {case['mode']} raised {impl['err']}, model {raw}"]
+        if case["mode"] == "eq":
+            got = "true" if impl["res"][0] else "false"
+        elif case["mode"] == "in":
+            got = str(impl["res"]).lower()
+        elif case["mode"] in ("index", "count"):
+            got = str(impl["res"])
+        else:
+            got = "ok 1" if impl["res"] == [0] else "other"
+            raw = raw[:4]
+        return [] if got == raw else [f"shared {case['share']} ({case['via']}): {case['mode']} gave {impl['res']}, model {raw}"]
     if case["kind"] == "eqnf":
         raw = model["raw"]
         if raw not in ("true", "false"):
@@ -1528,6 +1607,18 @@ def oracle(case, impl):
                      msg=f"crash {impl['__crash__']}: {impl.get('msg')} {impl.get('tb', '')[-300:]}")]
     k = case["kind"]
     vs = []
+    if k == "share":
+        entry = {"eq": "__eq__", "in": "__contains__", "index": "index", "count": "count", "remove": "remove"}[case["mode"]]
+        what = f"b shares the {case['share']} object of a ({case['via']}, {case['tag']}) and differs in the {'grid' if case['share'] == 'values' else 'values'}"
+        if not impl["shared"] or not impl["consistent"]:
+            return []        # the tree copied the object / rejected the assignment: nothing shared to judge
+        if "err" in impl:
+            return [dict(clause="eq_total", entry=entry, causes=["raises_" + impl["err"]], msg=f"{what}: {case['mode']} raised {impl['err']}")]
+        want = {"eq": [False, False], "in": True, "index": 1, "count": 1, "remove": [0]}[case["mode"]]
+        if impl["plain"] is False and impl["res"] != want:
+            vs.append(dict(clause="eq_spec" if case["mode"] == "eq" else "membership", entry=entry, causes=["shared_object_shortcut"],
+                           msg=f"{what}: {case['mode']} on [b, a] / (a, b) gave {impl['res']}, expected {want}"))
+        return vs
     if k == "eqnf":
         entry = {"eq": "__eq__", "in": "__contains__", "remove": "remove"}[case["mode"]]
         if "err" in impl:
